@@ -3,6 +3,11 @@
 #include "common/verif.hpp"
 #include "mon/monitor.hpp"
 
+#include <tao/pegtl/contrib/integer.hpp>
+#include <tao/pegtl/contrib/raw_string.hpp>
+#include <tao/pegtl/contrib/rep_one_min_max.hpp>
+#include <tao/pegtl/contrib/uint8.hpp>
+
 namespace mon
 {
    // defined in mon/tu.hpp once the generated kind tables are known; grammars may name them earlier
